@@ -497,6 +497,7 @@ MUTANTS = [
     M("literal-str-instead-of-repr", _TS, "        # Not a regex\n        return repr(self._value)", "        # Not a regex\n        return \"'\" + str(self._value) + \"'\"", "R15-c"),
 ]
 TWINS = [
+    M("twin-quote-pattern-not-raw", _TS, "                r\"(\\\\*)'\",\n", "                \"(\\\\\\\\*)'\",\n", None),
     M("twin-fstring-to-concat", _R, "        return self._operand_as_spec() + \"+\"\n", "        return f\"{self._operand_as_spec()}+\"\n", None),
     M("twin-helper-else", _R, "        if isinstance(self.node, (Concatenation, Repetition)):\n            return f\"({spec})\"\n        return spec", "        if isinstance(self.node, (Concatenation, Repetition)):\n            return f\"({spec})\"\n        else:\n            return spec", None),
 ]
